@@ -463,9 +463,15 @@ func (st *c17State) pixB(dirty func(z *render.Renderer), pi int) []byte {
 	var z render.Renderer
 	z.SetRasterizer(vz, c17Rect)
 	if dirty != nil {
+		// the earlier history was rendered into a smaller image; the caller then points the same
+		// rasteriser at the image of the later program
+		small := image.NewRGBA(image.Rect(0, 0, 24, 20))
+		vz = vec.NewRasterizer(small)
+		z.SetRasterizer(vz, small.Bounds())
 		z.Reset(c01Metas[2].vb, c01Metas[2].pal)
 		dirty(&z)
-		draw.Draw(img, img.Bounds(), image.Transparent, image.Point{}, draw.Src)
+		vz.Dst = img
+		z.SetRasterizer(vz, c17Rect)
 	}
 	vz.DrawOp = draw.Src
 	st.renB(&z, pi)
